@@ -10,12 +10,22 @@ Model/CLO.v's `clo` for every source and every offset.
 
 Fail-closed: any statement or expression shape that is not listed in CloDSL.v
 raises TranslationError, as does a change of what the reading relies on: the
-methods of the class, its bases, `import bisect`, a rebinding of len / min /
-enumerate / bisect, another assignment to the two attributes inside utils.py.
+bases of the class, `import bisect`, a rebinding of len / min / enumerate /
+bisect, another assignment to the two attributes inside utils.py, a def of the
+class other than __init__/__call__ that could take part in construction, the
+call or attribute access (only __repr__, __str__, __eq__, __ne__, __hash__,
+__len__, __format__ and public names other than the two attributes may be
+added; they are not translated and the two translated bodies call no method),
+a class-level statement other than a literal `__slots__` naming both
+attributes.
 
-The output depends on the abstract syntax only: comments, docstrings, layout
-and the names of parameters, locals and comprehension variables do not
-change it.
+The output depends on the abstract syntax only: comments, docstrings, layout,
+annotations and the names of parameters, locals and comprehension variables do
+not change it.  Before translation the two defs are normalised
+(norm_utils.py; every rewrite preserves behaviour): helper functions inlined,
+`b = self.attr` / `b = param` aliases replaced, early returns written as else
+branches, `x = ..` in every branch + `return .., x` written as a return in
+every branch; `a == b` is written with its operands in a fixed order.
 
 Usage: gen_clo.py <out.v>         exit 0 = written (only if content changed)
                                   exit 2 = translation failed (message on stderr)
@@ -24,9 +34,14 @@ import ast
 import os
 import sys
 
+sys.path.insert(0, os.path.dirname(os.path.abspath(__file__)))
+import norm_utils  # noqa: E402
+
 REPO = os.environ.get('TEXSOUP_REPO', '/repo')
 FIELDS = {'line_break_positions': 'F_line_break_positions', 'src_len': 'F_src_len'}
-BUILTINS = ('len', 'min', 'enumerate', 'object')
+BUILTINS = ('len', 'min', 'enumerate', 'object', 'property', 'staticmethod', 'classmethod')
+# defs besides __init__/__call__ that may be present without being translated
+EXTRA_OK = ('__repr__', '__str__', '__eq__', '__ne__', '__hash__', '__len__', '__format__')
 
 
 class TranslationError(Exception):
@@ -78,8 +93,8 @@ def check_module(tree):
                 bind((a.asname or a.name).split('.')[0], 'import ' + a.name)
         elif isinstance(st, (ast.FunctionDef, ast.ClassDef)):
             bind(st.name, 'def')
-        elif isinstance(st, ast.Assign):
-            for t in st.targets:
+        elif isinstance(st, (ast.Assign, ast.AnnAssign)):
+            for t in (st.targets if isinstance(st, ast.Assign) else [st.target]):
                 for x in ast.walk(t):
                     if isinstance(x, ast.Name) and isinstance(x.ctx, ast.Store):
                         bind(x.id, 'assign')
@@ -102,21 +117,45 @@ def check_module(tree):
             raise TranslationError('%s(...) at %s' % (n.func.id, where(n)))
         if isinstance(n, ast.Attribute) and is_name(n.value, 'bisect') and isinstance(n.ctx, ast.Store):
             raise TranslationError('assignment to bisect.%s at %s' % (n.attr, where(n)))
-    # the two attributes are public: inside this module nobody else may write them
-    inside = set(id(x) for x in ast.walk(cl))
+    # the two attributes are public: inside this module only __init__ may write them
+    init_nodes = set()
+    for st in cl.body:
+        if isinstance(st, ast.FunctionDef) and st.name == '__init__':
+            init_nodes |= set(id(x) for x in ast.walk(st))
     for n in ast.walk(tree):
         if isinstance(n, ast.Attribute) and n.attr in FIELDS and not isinstance(n.ctx, ast.Load):
-            need(id(n) in inside, 'assignment to .%s outside the class at %s' % (n.attr, where(n)))
+            need(id(n) in init_nodes, 'assignment to .%s outside __init__ at %s' % (n.attr, where(n)))
         if isinstance(n, ast.Attribute) and is_name(n.value, 'CharToLineOffset') \
                 and not isinstance(n.ctx, ast.Load):
             raise TranslationError('assignment to an attribute of the class at %s' % where(n))
     meths = {}
     for st in strip_doc(cl.body):
-        need(isinstance(st, ast.FunctionDef) and not st.decorator_list and st.returns is None,
+        if isinstance(st, ast.Assign) and len(st.targets) == 1 and is_name(st.targets[0], '__slots__'):
+            # __slots__ only changes where the attributes are stored; both must have a slot
+            v = st.value
+            need(isinstance(v, (ast.Tuple, ast.List)) and all(isinstance(e, ast.Constant)
+                 and isinstance(e.value, str) for e in v.elts)
+                 and all(f in [e.value for e in v.elts] for f in FIELDS)
+                 and '__slots__' not in meths,
+                 '__slots__ is not a literal tuple of names with the two attributes at %s' % where(st))
+            meths['__slots__'] = st
+            continue
+        need(isinstance(st, ast.FunctionDef),
              'unexpected statement in the class at %s: %s' % (where(st), shape(st)))
         need(st.name not in meths, '%s is defined twice' % st.name)
+        if st.name in ('__init__', '__call__'):
+            need(not st.decorator_list, '%s has a decorator' % st.name)
+        else:
+            # a def that neither construction nor the call can reach (the two translated bodies
+            # call no method of self) and that cannot change how attributes are looked up
+            need((st.name in EXTRA_OK or not st.name.startswith('_')) and st.name not in FIELDS,
+                 'the class defines %s, which may take part in construction / attribute access' % st.name)
+            need(all(isinstance(d, ast.Name) and d.id in ('property', 'staticmethod', 'classmethod')
+                     for d in st.decorator_list), '%s has an unknown decorator' % st.name)
         meths[st.name] = st
-    need(sorted(meths) == ['__call__', '__init__'], 'the methods of the class changed: %s' % sorted(meths))
+    meths.pop('__slots__', None)
+    need('__call__' in meths and '__init__' in meths,
+         'the methods of the class changed: %s' % sorted(meths))
     return meths
 
 
@@ -126,8 +165,6 @@ class Scope(object):
         need(not a.vararg and not a.kwonlyargs and not a.kwarg and not a.kw_defaults and not a.defaults
              and not getattr(a, 'posonlyargs', []) and len(a.args) == 2,
              '%s: parameters are not (self, x)' % fn.name)
-        for x in a.args:
-            need(x.annotation is None, '%s: annotated parameter' % fn.name)
         self.owner = fn.name
         self.self_name = a.args[0].arg
         need(a.args[1].arg != self.self_name, '%s: repeated parameter' % fn.name)
@@ -219,7 +256,16 @@ class Scope(object):
 
     def cond(self, n):
         if isinstance(n, ast.Compare) and len(n.ops) == 1 and isinstance(n.ops[0], ast.Eq):
-            return 'CEq (%s) (%s)' % (self.ex(n.left), self.ex(n.comparators[0]))
+            # == is only defined on ints here (anything else is OUnsup) and both sides
+            # are expressions without effect: the operands are written in a fixed order
+            # (variable, attribute, compound expression, literal), `0 == x` as `x == 0`
+            a, b = self.ex(n.left), self.ex(n.comparators[0])
+
+            def rank(t):
+                return {'EVar': 0, 'EField': 1, 'EInt': 3}.get(t.split()[0], 2)
+            if rank(b) < rank(a):
+                a, b = b, a
+            return 'CEq (%s) (%s)' % (a, b)
         self.err(n, 'unsupported condition')
 
     def stmt(self, s):
@@ -253,6 +299,37 @@ class Scope(object):
 
     def block(self, body):
         return [self.stmt(s) for s in body]
+
+
+def normalise(fn, helpers):
+    """The def with the behaviour-preserving rewrites of norm_utils applied, so
+    that equivalent ways of writing it give the same program: annotations
+    dropped; small module-level helper functions inlined; a local that merely
+    names a parameter / an attribute of self / a literal replaced by it; early
+    `return`s written as else branches; a result variable assigned in every
+    branch and returned at the end written as a return in every branch."""
+    try:
+        fn = norm_utils.strip_annotations(fn)
+    except norm_utils.NormError as e:
+        raise TranslationError(str(e))
+    fn.body = strip_doc(fn.body)
+    fn.body = norm_utils.inline_helpers(fn, helpers)
+    self_name = fn.args.args[0].arg if fn.args.args else None
+    writes_attr = any(isinstance(n, ast.Attribute) and not isinstance(n.ctx, ast.Load) for n in ast.walk(fn))
+    stored = set(n.id for n in ast.walk(fn) if isinstance(n, ast.Name) and not isinstance(n.ctx, ast.Load))
+    params = set(x.arg for x in fn.args.args)
+
+    def is_atom(e):
+        if isinstance(e, ast.Constant) and type(e.value) is int:
+            return True
+        if isinstance(e, ast.Name):
+            return e.id in params and e.id not in stored and e.id != self_name
+        return (isinstance(e, ast.Attribute) and is_name(e.value, self_name) and e.attr in FIELDS
+                and self_name not in stored and not writes_attr)
+    fn.body = norm_utils.inline_aliases(fn, is_atom)
+    fn.body = norm_utils.else_nest(fn.body)
+    fn.body = norm_utils.sink_tail_return(fn.body)
+    return fn
 
 
 def pp_block(items, ind):
@@ -290,10 +367,11 @@ def generate():
     w('From TexModel Require Import CLO CloDSL.')
     w('Import ListNotations.')
     w('')
+    helpers = norm_utils.helper_table(tree)
     for name, coq in (('__init__', 'gen_clo_init'), ('__call__', 'gen_clo_call')):
-        fn = meths[name]
+        fn = normalise(meths[name], helpers)
         sc = Scope(fn)
-        body = strip_doc(fn.body)
+        body = fn.body
         need(body, '%s: empty body' % name)
         prog = sc.block(body)
         w('(* def %s *)' % name)
